@@ -415,21 +415,28 @@ end
 /-! ### specification of the order of nested values (stated here because `Ty` / `Val` live in this file) -/
 
 
+/-- the type ids of a union are pairwise distinct -/
+def idsDistinct : List Nat → Bool
+  | [] => true
+  | a :: as => !as.contains a && idsDistinct as
+
 mutual
-/-- types whose order theorem is stated: no Union -/
-def unionFree : Ty → Bool
+/-- well-formed types: every union has one non-negative `i8` type id per field, pairwise
+distinct (what `UnionFields` guarantees) -/
+def wfTy : Ty → Bool
   | .leaf _ => true
   | .null => true
-  | .struct fs => unionFreeAll fs
-  | .list t => unionFree t
-  | .fsl _ t => unionFree t
-  | .dict t => unionFree t
-  | .ree t => unionFree t
-  | .map k v => unionFree k && unionFree v
-  | .union _ _ => false
-def unionFreeAll : List Ty → Bool
+  | .struct fs => wfTyAll fs
+  | .list t => wfTy t
+  | .fsl _ t => wfTy t
+  | .dict t => wfTy t
+  | .ree t => wfTy t
+  | .map k v => wfTy k && wfTy v
+  | .union ids kids =>
+    decide (ids.length = kids.length) && ids.all (fun i => decide (i < 128)) && idsDistinct ids && wfTyAll kids
+def wfTyAll : List Ty → Bool
   | [] => true
-  | t :: ts => unionFree t && unionFreeAll ts
+  | t :: ts => wfTy t && wfTyAll ts
 end
 
 def nullOrd (o : SortOptions) (aNull bNull : Bool) : Ordering :=
@@ -466,14 +473,23 @@ def cmpN : Ty → SortOptions → Val → Val → Ordering
   | .map _ _, o, .list _, _ => nullOrd o false true
   | .map _ _, o, _, .list _ => nullOrd o true false
   | .map _ _, _, _, _ => .eq
+  /- unions: by type id, then the value of the common variant under the child options; the
+  whole reversed when descending -/
+  | .union ids kids, o, .union i x, .union j y =>
+    swapIf o.descending ((compareNat (ids.getD i 0) (ids.getD j 0)).then
+      (if i = j then cmpNth kids (childOpts o) i x y else .eq))
   | .union _ _, _, _, _ => .eq
+def cmpNth : List Ty → SortOptions → Nat → Val → Val → Ordering
+  | t :: _, o, 0, x, y => cmpN t o x y
+  | _ :: ts, o, n + 1, x, y => cmpNth ts o n x y
+  | [], _, _, _, _ => .eq
 def cmpFieldsN : List Ty → SortOptions → List Val → List Val → Ordering
   | t :: ts, o, x :: xs, y :: ys => (cmpN t o x y).then (cmpFieldsN ts o xs ys)
   | _, _, _, _ => .eq
 end
 
 
-/-- lexicographic order of two rows of arbitrary (union-free) fields -/
+/-- lexicographic order of two rows of arbitrary fields -/
 def cmpRowN : List (Ty × SortOptions) → List Val → List Val → Ordering
   | (t, o) :: fs, a :: as, b :: bs => (cmpN t o a b).then (cmpRowN fs as bs)
   | _, _, _ => .eq
